@@ -262,20 +262,13 @@ pub fn body_maxbase(witness: bool) {
 
 /// `FixedWindowRollerBuilder::build`: accepts exactly patterns containing `{}`; compression
 /// extensions are refused when the feature is off; the built roller rolls like the direct one.
-pub fn body_build(witness: bool) {
-    let k = sym::below(4);
-    let (pat, ok) = match k {
-        0 => ("/l/a.{}", true),
-        1 => ("/l/a", false),
-        2 => ("/l/a.{}.gz", cfg!(feature = "gzip")),
-        _ => ("/l/{}/a.zst", cfg!(feature = "zstd")),
-    };
+/// `FixedWindowRollerBuilder::build` on one pattern (an instance parameter: a pattern chosen by the
+/// solver made every string operation symbolic, DESIGN.md 9.8 rule 19); base and count over all of u32.
+pub fn body_build(pat: &'static str, ok: bool, witness: bool) {
     let base = sym::any_u32();
     let count = sym::any_u32();
     let r = FixedWindowRoller::builder().base(base).build(pat, count);
     assert!(r.is_ok() == ok, "build accepts exactly the patterns containing the index placeholder");
-    cover!(r.is_ok(), "accepted pattern");
-    cover!(!r.is_ok(), "rejected pattern");
     if witness {
         assert!(false, "WITNESS");
     }
@@ -296,7 +289,15 @@ harnesses! {
         #[cfg_attr(kani, kani::stub(<anyhow::Error as std::convert::From<std::io::Error>>::from, crate::util::stub_anyhow_from_cut))]
     }
     #[kani::unwind(12)]
-    fn c07_build() { body_build(false) }
+    fn c07_build_index() { body_build("/l/a.{}", true, false) }
+    #[kani::unwind(12)]
+    fn c07_build_index_witness() { body_build("/l/a.{}", true, true) }
+    #[kani::unwind(12)]
+    fn c07_build_noindex() { body_build("/l/a", false, false) }
+    #[kani::unwind(12)]
+    fn c07_build_gz() { body_build("/l/a.{}.gz", cfg!(feature = "gzip"), false) }
+    #[kani::unwind(12)]
+    fn c07_build_zst_dir() { body_build("/l/{}/a.zst", cfg!(feature = "zstd"), false) }
     #[kani::unwind(16)]
     fn c07_file_bmax_c1() { body_maxbase(false) }
     #[kani::unwind(8)]
